@@ -1349,6 +1349,56 @@ impl Exec {
                     }
                 }
             }
+            "scopecase" => {
+                // (scopecase scope flowinfo kind): a message naming a member whose advertised IPv6
+                // address carries a scope id / flow label (the wire format has no field for them)
+                use chitchat::{Deserializable, Serializable};
+                use std::net::{Ipv6Addr, SocketAddr, SocketAddrV6};
+                let scope = a.first()?.nat()? as u32;
+                let flow = a.get(1)?.nat()? as u32;
+                let kind = a.get(2)?.atom()?.to_string();
+                let addr = SocketAddr::V6(SocketAddrV6::new(Ipv6Addr::new(0xfe80, 0, 0, 0, 0, 0, 0, 1), 7000, flow, scope));
+                let id = ChitchatId::new("scoped".to_string(), 1, addr);
+                let digest = verif::digest_from_parts(vec![VNodeDigest { chitchat_id: id.clone(), heartbeat: 1, last_gc_version: 0, max_version: 2 }]);
+                let msg = if kind == "syn" {
+                    ChitchatMessage::Syn { cluster_id: "c".to_string(), digest }
+                } else {
+                    ChitchatMessage::SynAck { digest, delta: verif::delta_from_parts(vec![], 1) }
+                };
+                let r = catch_unwind(AssertUnwindSafe(|| {
+                    let bytes = msg.serialize_to_vec();
+                    let mut buf = &bytes[..];
+                    let back = ChitchatMessage::deserialize(&mut buf);
+                    (bytes.len(), msg.serialized_len(), back.ok(), buf.len())
+                }));
+                match r {
+                    Ok((n, sl, back, rest)) => {
+                        let same = back.as_ref() == Some(&msg);
+                        if !same {
+                            // is the scope id / flow label the only thing that was lost?
+                            let norm_addr = SocketAddr::V6(SocketAddrV6::new(Ipv6Addr::new(0xfe80, 0, 0, 0, 0, 0, 0, 1), 7000, 0, 0));
+                            let norm_id = ChitchatId::new("scoped".to_string(), 1, norm_addr);
+                            let norm_digest = verif::digest_from_parts(vec![VNodeDigest { chitchat_id: norm_id, heartbeat: 1, last_gc_version: 0, max_version: 2 }]);
+                            let norm = if kind == "syn" {
+                                ChitchatMessage::Syn { cluster_id: "c".to_string(), digest: norm_digest }
+                            } else {
+                                ChitchatMessage::SynAck { digest: norm_digest, delta: verif::delta_from_parts(vec![], 1) }
+                            };
+                            if back.as_ref() == Some(&norm) && rest == 0 && n == sl {
+                                self.monitor_hit("C08", "KF-2", &format!("a {kind} naming a member advertised at [fe80::1%{scope}]:7000 (flow label {flow}) decodes to the same message with scope id and flow label zeroed"));
+                            } else {
+                                self.monitor_hit("C08", "roundtrip", &format!("decode(encode(m)) != m for a {kind} with an IPv6 member (scope {scope}, flow {flow}), beyond the loss of scope id / flow label"));
+                            }
+                        }
+                        Some(("(nop)".to_string(), "(nop)".to_string()))
+                    }
+                    Err(_) => {
+                        let d = take_panic();
+                        self.monitor_hit("C08", "roundtrip", &format!("encoding/decoding a message with a scoped IPv6 member aborted: {}", &d[..d.len().min(160)]));
+                        Some(("(nop)".to_string(), "(nop)".to_string()))
+                    }
+                }
+            }
             "usend" => {
                 // (usend msg peer|unreach): the real UdpSocket sends; a raw socket observes the wire
                 use chitchat::Serializable;
